@@ -101,6 +101,35 @@ def drain_functions(crate):
     return sorted(set(out))
 
 
+def modify_drain_functions(crate):
+    """functions that hand queued ids to the user's Analysis::modify hook"""
+    out = []
+    for b in crate.fns():
+        if any(c.callee and c.callee.name == "modify" and (c.callee.trait or "").endswith("Analysis") for c in b.calls):
+            out.append(b.id)
+    return sorted(out)
+
+
+def rebuild_roots(crate):
+    """the rebuild entry: the function that drains `pending` and then `modify_queue` — both loops in its own body, or
+    (when the loops were split off) the function that calls the pending drain and the modify drain"""
+    pd, md = set(drain_functions(crate)), set(modify_drain_functions(crate))
+    both = pd & md
+    if both:
+        return sorted(both)
+    out = []
+    for b in crate.fns():
+        if b.id in pd or b.id in md:
+            if b.id in pd and any(c.body is b for c in calls_to(crate, b, md)):
+                out.append(b.id)
+            elif b.id in md and any(c.body is b for c in calls_to(crate, b, pd)):
+                out.append(b.id)
+            continue
+        if any(c.body is b for c in calls_to(crate, b, pd)) and any(c.body is b for c in calls_to(crate, b, md)):
+            out.append(b.id)
+    return sorted(out)
+
+
 def requeue_functions(crate):
     """touched_class: iterates EClass.usages and inserts into EGraph.pending"""
     out = []
@@ -235,7 +264,9 @@ class Worklist:
 
     def __init__(self, crate):
         self.crate = crate
-        self.drains = set(drain_functions(crate))
+        self.pend_drains = set(drain_functions(crate))
+        self.mod_drains = set(modify_drain_functions(crate))
+        self.drains = set(rebuild_roots(crate))     # S by axiom; their own shape is rule P3
         fns = {b.id: b for b in crate.fns()}
         self.fns = fns
         self.P = set(fns)
@@ -586,8 +617,8 @@ def loop_census(ctx, crate):
             ctx.bad("early-exit:%s" % file,
                     "unreviewed early exit from a state-changing loop: %d loop(s) in %s that mutate through a &mut parameter can be left before their iterator is exhausted (break / return / `?` in the body), %d reviewed; e.g. the loop over %s in %s (it calls %s on `%s`). Elements after the exit are never processed" % (
                         len(sites), file, ent[0] if ent else 0, role_str(lp[1])[:80], short(root.id), fx[0][0].callee.name, fx[0][1]), where_of(b, lp[0]))
-    ctx.floor("iterator-driven loops in the library", tot, 90)
-    ctx.floor("of which state-changing", eff, 18)
+    ctx.floor("iterator-driven loops in the library", tot, 60)
+    ctx.floor("of which state-changing", eff, 12)
     ctx.ok("census", "%d iterator-driven loops, %d state-changing, %d of those with a reviewed early exit, all others run to exhaustion" % (tot, eff, sum(len(v) for v in early.values())))
 
 
@@ -613,7 +644,7 @@ def reinsert_functions(crate):
     back under its re-canonicalised form (calls two different hashcons writers directly), is neither the
     class merge nor the leader union"""
     hw = set(hashcons_writers(crate))
-    reach = set(crate.reachable_from(drain_functions(crate)))
+    reach = set(crate.reachable_from(rebuild_roots(crate) or drain_functions(crate)))
     excl = set(merge_functions(crate)) | set(leader_union_functions(crate)) | hw
     out = []
     for b in crate.fns():
@@ -662,3 +693,65 @@ def slot_inclusion(ctx, crate):
             ok = b.must_pass([0], {c.bb}, set(sub_true) | shrink_calls)
             ctx.check(ok, "inclusion-before-insert:" + fkey(b), "every path to the re-insert in %s passes the subset test's true edge or the shrink" % short(fid),
                       "%s can put the e-node back into its class on a path where neither `slots(class) ⊆ slots(node)` was tested true nor the class was shrunk: the class keeps a slot that none of its nodes mentions (extraction then returns a term outside the class, look-ups of it miss)" % short(fid), where_of(b, c.bb))
+
+
+# ---------------------------------------------------------------------------- "for all elements: pred" recognisers
+def const_bool(rv):
+    """True/False if the rvalue is the constant bool, else None"""
+    if rv.get("k") == "use" and rv["op"].get("k") == "const":
+        op = rv["op"]
+        if op.get("ty") == "bool":
+            if op.get("text") == "true" or op.get("int") == "1":
+                return True
+            if op.get("text") == "false" or op.get("int") == "0":
+                return False
+    return None
+
+
+def is_forall_role(crate, role, pred_name, over=()):
+    """the boolean role means `every element satisfies <pred_name>`:
+       * iter.all(|x| .. pred_name(..) ..)
+       * f(..) for a crate-local f that is a loop returning false at the first element failing pred_name and true
+         only when the iterator is exhausted
+    `over`: call names one of which the iterated collection must mention (e.g. ids)"""
+    r = strip_role(role)
+    if not (isinstance(r, tuple) and r[0] == "call"):
+        return False
+    if r[1] == "all" and len(r[3]) == 2:
+        if over and not any(mir.role_mentions_call(r[3][0], o) for o in over):
+            return False
+        cl = strip_role(r[3][1])
+        if cl[0] == "agg" and cl[1] in crate.bodies:
+            cb = crate.bodies[cl[1]]
+            ret = cb.role_of_local(0)
+            # the closure's value is the predicate itself (not its negation, not a disjunction with something else)
+            sr = strip_role(ret)
+            return isinstance(sr, tuple) and sr[0] == "call" and sr[1] == pred_name
+        return False
+    # crate-local helper
+    cands = [b for b in crate.by_name.get(r[1], []) if b.kind != "Closure"]
+    for f in cands:
+        f = unwrap_delegation(crate, f)
+        loops = [lp for lp in iterator_loops(f) if not over or any(mir.role_mentions_call(lp[1], o) for o in over)]
+        if len(loops) != 1:
+            continue
+        sb, it, none_e, some_e, cs = loops[0]
+        ok = True
+        seen_true = seen_false = False
+        for d in f.defs().get(0, []):
+            if d["kind"] != "assign":
+                ok = False
+                break
+            v = const_bool(d["rv"])
+            if v is True:
+                seen_true = True
+                ok = ok and f.dominated_by(d["bb"], none_e)
+            elif v is False:
+                seen_false = True
+                conds = [c for e, c in conditions_at(f, d["bb"]) if c[0] == "false" and isinstance(strip_role(c[1]), tuple) and strip_role(c[1])[0] == "call" and strip_role(c[1])[1] == pred_name]
+                ok = ok and bool(conds)
+            else:
+                ok = False
+        if ok and seen_true and seen_false:
+            return True
+    return False
